@@ -283,6 +283,10 @@ def run(tier, seed, replay=None):
 
         for li in range(n_levels):
             n = [0, 1, 1, 2, 2, 3, 4, 6][li % 8] if li < 16 else rng.choice([1, 2, 3, 5, 8])
+            # a few LARGE levels: packages of 20-40 KB cross every power-of-two buffer size up to 32 KiB
+            big_level = li in ((9,) if quick else (9, 41, 73, 105))
+            if big_level:
+                n = rng.choice([100, 140, 180])
             tied = (li % 5 == 4)
             price = jsn.rq(rng)
             orders = jsn.rlevel_orders(rng, n, price=rng.choice([None, price]), distinct_ts=not tied)
@@ -333,7 +337,13 @@ def run(tier, seed, replay=None):
                 samples.append("%d [%s] -> %s" % (price, ",".join(orders), text.decode()[:300]))
 
             # ---- judge 1: exhaustive single faults
-            if li < (8 if quick else 40) or len(text) < 700:
+            if big_level:
+                # windows around every multiple of 4096 (shifted right by the wrapper in front of the hashed payload)
+                # plus a random sample of other offsets
+                wins = [(max(0, k - 24), min(len(text), k + 120)) for k in range(4096, len(text), 4096)]
+                wins += [(p, p + 1) for p in sorted(rng.sample(range(len(text)), 150))]
+                acc, pan, st = impl.scan(bytes([48, 57, 102]), bytes([48, 32]), bytes([1, 4]), windows=wins)
+            elif li < (8 if quick else 40) or len(text) < 700:
                 acc, pan, st = impl.scan(bytes(range(256)), ins_bytes, b"")
             else:
                 acc, pan, st = impl.scan(bytes([48, 49, 57, 32, 34, 44, 125, 102, 0]), ins_bytes[:20], bytes([1, 2, 4, 8, 16, 32, 64, 128]))
@@ -348,7 +358,7 @@ def run(tier, seed, replay=None):
             # ---- judge 2: sampled pairs (and a few triples)
             L = len(text)
             edits = []
-            for _ in range(n_pairs // n_levels):
+            for _ in range(n_pairs // n_levels if not big_level else 20):
                 e1 = rand_edit(rng, L, text)
                 t_mid = apply_edits(text, e1)
                 if not t_mid:
@@ -375,7 +385,7 @@ def run(tier, seed, replay=None):
 
             # ---- (iii) + judge 3: structural edits, model vs implementation and against the original content
             ast = jsn.parse_text(text.decode())
-            muts = package_mutants(rng, ast, model, n_mut if li < 12 or not quick else n_mut // 3)
+            muts = package_mutants(rng, ast, model, (n_mut if li < 12 or not quick else n_mut // 3) if not big_level else 12)
             cmds = ["RESTORE " + hx(t) for (_, t) in muts]
             ai = impl.ask_many(cmds)
             am = model.ask_many(cmds)
